@@ -117,6 +117,9 @@ func (c *Conn) PeerClosed() {
 // Delivered returns the number of bytes handed to the reader so far.
 func (c *Conn) Delivered() int { c.mu.Lock(); defer c.mu.Unlock(); return c.pos }
 
+// Written returns the number of bytes the server has written so far.
+func (c *Conn) Written() int { c.mu.Lock(); defer c.mu.Unlock(); return len(c.Out) }
+
 // Remaining returns the number of scripted bytes not yet delivered.
 func (c *Conn) Remaining() int { c.mu.Lock(); defer c.mu.Unlock(); return len(c.in) - c.pos }
 
